@@ -7,7 +7,7 @@ ROOT = os.path.dirname(os.path.abspath(__file__))
 # id -> (technique, level text, level note, design ref)
 CHECKS = {
     "C01": (
-        "exhaustive enumeration of all day numbers, all 2^32 raw i32 and a (y,m,d) triple grid against a day-counting reference walker",
+        "exhaustive enumeration of all day numbers, all 2^32 raw i32 and a (y,m,d) triple grid against a day-counting reference walker; model-free pairwise history independence (every ordered pair of a call alphabet, incl. the same call twice and failing calls, on a fresh thread against the lone call)",
         "Every in-range day number (3,652,059), every raw i32 and every triple of the grid is executed on the real code (through the checked and, with valid input, the unchecked constructors) and compared with an independent day-counting calendar walker; the value space of the property is enumerated completely, so a wrong constant, leap rule, month table, weekday offset or range gate is found with certainty.",
         "Trusted: the reference walker (28/29/30/31 rule + leap rule + 1970-01-01 = day 0 = Thursday), rustc arithmetic. Triples outside the grid (years beyond -400..10400 other than the listed extremes) are not enumerated. Hidden state is explored to depth 3 from a fresh thread over a structured alphabet, by alternation of every date with two anchors, and for the first call of a fresh process; longer histories are outside the bound.",
         "DESIGN.md §4 C01",
@@ -82,19 +82,19 @@ CHECKS = {
     ),
 
     "C04": (
-        "exhaustive enumeration: all dates x every date token spelling x 3 types, all seconds x every time token, all microseconds x FF/FF1-9, interval value grids, every token sequence of length <= 3 x value pools of all six types, against an integer-arithmetic reference renderer",
+        "exhaustive enumeration: all dates x every date token spelling x 3 types, all seconds x every time token, all microseconds x FF/FF1-9, interval value grids, every token sequence of length <= 3 x value pools of all six types, against an integer-arithmetic reference renderer; model-free pairwise history independence (every ordered pair of a call alphabet, incl. the same call twice and failing calls, on a fresh thread against the lone call)",
         "Every (value, picture) pair of the enumerated spaces is formatted by the real code and must equal, byte for byte, the reference rendering of the reference token sequence; every (token, type) pair is also pushed through value.format(..) + write! into a String sink, where an inapplicable token must surface as an error and never as text or a panic.",
         "Trusted: refmodel/picture.rs renderer and applicability table, own name tables. Output case of mixed-case AM/PM spellings is compared case-insensitively (undefined by the property). Pictures longer than 3 tokens are covered by the rotation family only.",
         "DESIGN.md §4 C04",
     ),
     "C05": (
-        "model = generator: exhaustive (year, day-of-year) pairs, all dates x 9 pictures x weekday consistency, all seconds x 7 clock notations x 3 types, all 6/7-digit (thorough 8-digit) fractions and nine-digit ties, carry chain, deviation-bounded lenient spellings (<= 3 quick / 4 thorough deviations at all positions), rejection families",
+        "model = generator: exhaustive (year, day-of-year) pairs, all dates x 9 pictures x weekday consistency, all seconds x 7 clock notations x 3 types, all 6/7-digit (thorough 8-digit) fractions and nine-digit ties, carry chain, deviation-bounded lenient spellings (<= 3 quick / 4 thorough deviations at all positions), rejection families; model-free pairwise history independence (every ordered pair of a call alphabet, incl. the same call twice and failing calls, on a fresh thread against the lone call)",
         "Texts are generated from (type, picture, value, spelling choices), so the denoted value is known by construction; every generated text is parsed by the real code and must return exactly that value; every text of the rejection families (out-of-domain component, disagreeing redundant fields, repeated code, HH24 with meridian, output-only / inapplicable code, left-over input) must fail with an error. The deviation is the unit of the bound (iterative-context-bounding transplanted to a parser): all combinations of at most k lenient spellings at all positions are enumerated.",
         "Trusted: refmodel renderer + spell.rs generator and its 'denoted value' function. Spellings the properties leave open (12-hour field without meridian, partial dates, partial interval pictures, ambiguous digit runs) are not generated. Input texts outside the generated families are not covered.",
         "DESIGN.md §4 C05",
     ),
     "C19": (
-        "bounded language enumeration: every string of length <= 5 (thorough 6) over a 40-symbol alphabet, every token spelling at positions 34..38, rotations of the token list up to 40 tokens, blank runs of every length 1..=600, against a reference longest-match tokenizer through a probe rendering; every ASCII character and 11 non-ASCII ones in six picture contexts, every ASCII pair in two",
+        "bounded language enumeration: every string of length <= 5 (thorough 6) over a 40-symbol alphabet, every token spelling at positions 34..38, rotations of the token list up to 40 tokens, blank runs of every length 1..=600, against a reference longest-match tokenizer through a probe rendering; every ASCII character and 11 non-ASCII ones in six picture contexts, every ASCII pair in two; model-free pairwise history independence (every ordered pair of a call alphabet, incl. the same call twice and failing calls, on a fresh thread against the lone call)",
         "Each string is compiled by the real Formatter::try_new; it must be accepted iff the reference tokenizer splits it into at most 36 documented tokens, rejection must be Error::InvalidFormat, and on acceptance the text produced for a probe timestamp with pairwise distinct field renderings must equal the reference rendering of the reference token sequence — which identifies the token sequence, the name style chosen from the first two letters and the blank-run length.",
         "Trusted: refmodel tokenizer/renderer. The lexer looks ahead at most 5 bytes and carries no state between tokens, so length <= 6 covers every first-token decision with every following byte; longer pictures are covered by the bounded token language (all sequences of <= 6 / 7 tokens over an 18-token alphabet), the well-known pictures in five letter-case variants through each type's own entry point, and the blank-run families (every length to 600, powers of two to 2^17 / 2^22).",
         "DESIGN.md §4 C19",
@@ -107,19 +107,19 @@ CHECKS = {
         "DESIGN.md §4 C03",
     ),
     "C06": (
-        "grammar enumeration of lossless pictures (field permutations x month / weekday name styles x 11 separators x meridian styles x fraction variants) crossed with all dates / all seconds (basis pictures) and with year-long value pools (every picture); pure metamorphic oracle",
+        "grammar enumeration of lossless pictures (field permutations x month / weekday name styles x 11 separators x meridian styles x fraction variants) crossed with all dates / all seconds (basis pictures) and with year-long value pools (every picture); pure metamorphic oracle; model-free pairwise history independence (every ordered pair of a call alphabet, incl. the same call twice and failing calls, on a fresh thread against the lone call)",
         "For every enumerated (value, lossless picture) pair the real code formats, parses and formats again: the parse must return the original value and the second text must be byte-identical. The reference model only decides which pairs are lossless and unambiguous by the property's definition (four-digit year, month+day or day-of-year, 24-hour or 12-hour+meridian, >= 6 fraction digits when needed, variable-width fields delimited); it never predicts the text, so renderer and parser are checked against each other for every token, case, order and separator.",
         "Trusted: the losslessness filter (spell.rs denoted()/apply()). Timestamp pictures are date x rotating time pictures, not the full product.",
         "DESIGN.md §4 C06",
     ),
     "C15": (
-        "exhaustive enumeration: all dates (Date, OracleDate x 3 times), all seconds, timestamps every 86,399.999983 s across the range, boundary pools of all types through serde_json and bincode; raw-integer limits through bincode; complete single-edit neighbourhood of canonical JSON strings",
+        "exhaustive enumeration: all dates (Date, OracleDate x 3 times), all seconds, timestamps every 86,399.999983 s across the range, boundary pools of all types through serde_json and bincode; raw-integer limits through bincode; complete single-edit neighbourhood of canonical JSON strings; model-free pairwise history independence (every ordered pair of a call alphabet, incl. the same call twice and failing calls, on a fresh thread against the lone call)",
         "Every enumerated value is serialized and deserialized in both forms by the real code: identity, the human-readable text equals the fixed layout rendered by the reference, the binary form equals the raw count; every raw integer at the range limits +/-1 and the integer extremes (and sub-second payloads for the Oracle-style date) must decode to the same in-range value or fail; every single substitution / deletion / insertion of 20 symbols at every position of canonical strings, plus JSON numbers / null / booleans / empty string, must fail or yield an in-range value. A payload that is not the encoding of a value (out-of-range or sub-second raw count, integer of another width) must fail or yield a value inside the documented range - whole seconds for the Oracle-style date - exactly as the property states; that it must not be a wrapped or clamped number is C02's statement and is decided there. Long malformed non-ASCII strings (every byte alignment of every cut-off up to 288 bytes) must fail or decode in range, never panic.",
         "Trusted: serde_json, bincode (default fixed-width little-endian configuration), serde's value deserializers, reference renderer. Decoding also goes through from_value, from_reader, escaped strings, containers (Vec, Option, map value, map key, tuple) and typed scalars of every integer width. Multi-edit malformed strings are not enumerated.",
         "DESIGN.md §4 C15",
     ),
     "C18": (
-        "exhaustive enumeration over the environment: every possible current local date (all 3,652,059 days, three times of day) injected through the verif-hooks clock override, crossed with partial pictures, short-year pictures, the omitted 12-hour field, complete pictures, the now() constructors and the Time conversions; clocks outside years 1..9999",
+        "exhaustive enumeration over the environment: every possible current local date (all 3,652,059 days, three times of day) injected through the verif-hooks clock override, crossed with partial pictures, short-year pictures, the omitted 12-hour field, complete pictures, the now() constructors and the Time conversions; clocks outside years 1..9999; model-free pairwise history independence (every ordered pair of a call alphabet, incl. the same call twice and failing calls, on a fresh thread against the lone call)",
         "The wall clock is the crate's only environment input; with the verif-hooks feature every one of its six reads goes through a thread-local override, so the check decides the clock. For every clock day the partial pictures must default year/month from the clock, day to 1, time to zero (12 for an omitted 12-hour field), complete 1-3 digit years with the leading digits of the clock year, and fail - never normalise - when the composed triple is not a real date; complete pictures must give the same value under every clock; now()/TryFrom<Time> must report the injected instant (Oracle date floored) and fail cleanly for clocks outside the range. Ownership of the clock is shown by a canary against the real clock, the read counter and an identical-replay slice. Texts that spell a full four-digit year under a short year field (YY with 0026) must give the same outcome under every clock (decided differentially against one reference clock).",
         "Trusted: chrono NaiveDateTime construction (hook input), the add-only hook patch. Needs the hook (cargo feature verif-hooks). The un-injected clock is compared with chrono::Local under TZ=JST-9 and again after a change of TZ inside the process (the check sets TZ itself and sleeps 1.3 s for chrono's zone refresh).",
         "DESIGN.md §4 C18",
